@@ -643,8 +643,28 @@ def run_objective(ctx):
             except KeyError:
                 return 1.0
 
-        for _ in range(n_per):
-            ms = [gen_measurable(r, names, model.t, pops, value_of=value_of) for _ in range(r.choice([1, 1, 2, 3]))]
+        # directed: a hard target on ONE population of several, with the threshold between that population's value and the value over all populations,
+        # so that the verdict depends on the population selection being honoured
+        directed = []
+        if len(pops) >= 2:
+            for cls in ("AtLeast", "AtMost"):
+                for grp in ("comps", "characs"):
+                    if not names[grp]:
+                        continue
+                    nm = r.choice(names[grp])
+                    sel = [r.choice(pops)]
+                    tt = [float(r.choice(list(model.t)))]
+                    try:
+                        v_sel = indep_measure(model, {"name": nm, "t": tt, "pops": sel})[0]
+                        v_all = indep_measure(model, {"name": nm, "t": tt, "pops": None})[0]
+                    except KeyError:
+                        continue
+                    if not (math.isfinite(v_sel) and math.isfinite(v_all)) or abs(v_all - v_sel) <= 1e-6 * max(1.0, abs(v_all)):
+                        continue
+                    directed.append([{"name": nm, "t": tt, "pops": sel, "cls": cls, "threshold": float(0.5 * (v_sel + v_all))}])
+                    ctx.count("objective.directed_pop_threshold")
+        for k_ in range(n_per + len(directed)):
+            ms = directed[k_] if k_ < len(directed) else [gen_measurable(r, names, model.t, pops, value_of=value_of) for _ in range(r.choice([1, 1, 2, 3]))]
             objs = [measurable_obj(at, m) for m in ms]
             baselines = []
             for m in ms:
